@@ -54,7 +54,7 @@ func (x *Exec) nonNegRefs(v Value) *Term {
 	lay := LayoutOf(v.T)
 	var fs []*Term
 	for k, lf := range lay.Leaves {
-		if lf.Role == "ref" || lf.Role == "pay" {
+		if lf.Role == "ref" { // interface payloads may be boxed values (negative ids)
 			fs = append(fs, x.C.IntCmp(">=", v.L[k], x.C.IntLit(0)))
 		}
 	}
@@ -97,6 +97,9 @@ func (x *Exec) VerifyLemma(fn *ssa.Function) (err error) {
 			endPCs = append(endPCs, out.PC)
 		})
 		if ends == 0 {
+			if len(x.Obls) > before {
+				return nil // every path stops at a failed obligation (e.g. an unwinding assertion): those are reported
+			}
 			return fmt.Errorf("lemma %s: no path reaches the end of the lemma", fn.Name())
 		}
 		// vacuity guard: some complete path is feasible
@@ -183,7 +186,7 @@ func (x *Exec) isSpecFunc(fn *ssa.Function) bool {
 	for _, b := range fn.Blocks {
 		for _, ins := range b.Instrs {
 			switch i := ins.(type) {
-			case *ssa.MakeInterface, *ssa.MakeSlice, *ssa.MakeMap, *ssa.MakeClosure, *ssa.Store, *ssa.MapUpdate:
+			case *ssa.MakeSlice, *ssa.MakeMap, *ssa.MakeClosure, *ssa.Store, *ssa.MapUpdate:
 				return false
 			case *ssa.Alloc:
 				if i.Heap {
